@@ -69,6 +69,9 @@ func getDistillationFunc(dm *model.DecisionMaker) *utils.LinearFunctionParameter
 	} else {
 		parameters := utils.LinearFunctionParameters{}
 		utils.DecodeToStruct(params, &parameters)
+		if parameters.B < 0 || parameters.A+parameters.B < 0 {
+			panic(fmt.Errorf("electre distillation function must not be negative on [0,1], got %v", parameters))
+		}
 		return &parameters
 	}
 }
